@@ -78,6 +78,17 @@ class StubMultiprocessingPool:
         self._jobs.append(fut)
         return _AsyncResult(fut)
 
+    def imap(self, func, iterable, chunksize=1):
+        jobs = [self.apply_async(func, (x,)) for x in iterable]   # eager, like the feeder
+        for j in jobs:
+            yield j.get()
+
+    def imap_unordered(self, func, iterable, chunksize=1):
+        return self.imap(func, iterable, chunksize)
+
+    def map(self, func, iterable, chunksize=None):
+        return list(self.imap(func, iterable))
+
     def terminate(self):
         self.terminated = True
         for j in self._jobs:
